@@ -51,6 +51,32 @@ theorem builderEarly_settings (names : List (String × Nat)) (r : Req) :
       | some h => simp [exec, setField, eval, fresh, prefixForVersion_one, hl]
     · simp [exec, setField, eval, fresh, prefixForVersion_other v h0 h1, h0, h1]
 
+/-- the program READ FROM THE SOURCE configures the importer with exactly the request. Proved by running the interpreter
+    symbolically on `Gen.newIpfsAdder` itself (not through an equality with `code`): a rewrite of `newIpfsAdder` that keeps the
+    meaning still checks, one that changes a value for some request does not. -/
+theorem gen_settings (names : List (String × Nat)) (r : Req) : settingsOf names Gen.newIpfsAdder r = expected names r := by
+  obtain ⟨layout, chunker, raw, nocopy, progress, v, hf⟩ := r
+  unfold settingsOf expected Gen.newIpfsAdder
+  by_cases h0 : v = 0
+  · subst h0
+    cases hl : lookup names (lower hf) with
+    | none => simp [exec, setField, eval, fresh, prefixForVersion_zero, hl]
+    | some h =>
+      by_cases hs : h = sha256Code
+      · subst hs
+        simp [exec, setField, eval, fresh, prefixForVersion_zero, hl]
+      · simp [exec, setField, eval, fresh, prefixForVersion_zero, hl, hs]
+  · by_cases h1 : v = 1
+    · subst h1
+      cases hl : lookup names (lower hf) with
+      | none => simp [exec, setField, eval, fresh, prefixForVersion_one, hl]
+      | some h => simp [exec, setField, eval, fresh, prefixForVersion_one, hl]
+    · simp [exec, setField, eval, fresh, prefixForVersion_other v h0 h1, h0, h1]
+
+theorem gen_importerOf (links : Nat) (s : Settings) :
+    importerOf links Gen.ipfsAdd s = some ⟨s.chunker, s.rawLeaves, links, s.noCopy, s.builder, s.trickle⟩ := by
+  rfl
+
 /-- what `expected` says when it builds -/
 theorem expected_built (names : List (String × Nat)) (r : Req) (s : Settings) (h : expected names r = .built s) :
     s.rawLeaves = r.rawLeaves ∧ s.noCopy = r.noCopy ∧ s.chunker = r.chunker ∧ s.progress = r.progress ∧
